@@ -1,10 +1,13 @@
 #!/bin/bash
-# usage: hsafe.sh <python-or-shell edit script>  - applies an edit to a scratch copy of the harness, compiles it
-# there, and only then copies the changed files back (so that a concurrently running check never sees a broken tree)
+# usage: hsafe.sh <edit script>  - applies an edit to a scratch copy of the harness, compiles it there against a clean
+# checkout of /repo's HEAD, and only then copies the changed files back (so that a concurrently running check never
+# sees a broken harness, and a /repo that seedtest.sh is patching does not matter). The edit script gets $H = harness dir.
 set -e
 export GOFLAGS=-mod=mod GOPROXY=off GOSUMDB=off GOTOOLCHAIN=local
-rm -rf /tmp/hw && mkdir -p /tmp/hw && rsync -a /verif/harness/ /tmp/hw/harness/
-( cd /tmp/hw/harness && H=/tmp/hw/harness bash -e "$1" && gofmt -l checks core hs pg tr >/dev/null && go build -tags verif -o /dev/null ./... )
-rsync -a --checksum /tmp/hw/harness/ /verif/harness/
-rm -rf /tmp/hw
+W=/tmp/hw.$$
+mkdir -p $W && rsync -a /verif/harness/ $W/harness/
+git -C /repo worktree add --detach $W/repo HEAD >/dev/null 2>&1
+trap 'git -C /repo worktree remove --force $W/repo >/dev/null 2>&1; git -C /repo worktree prune; rm -rf $W' EXIT
+( cd $W/harness && H=$W/harness bash -e "$1" && sed "s#=> /repo#=> $W/repo#" go.mod > $W/alt.mod && cp $W/repo/go.sum $W/alt.sum && go build -modfile=$W/alt.mod -tags verif -o /dev/null ./... )
+rsync -a --checksum --exclude go.sum $W/harness/ /verif/harness/
 echo applied
